@@ -269,6 +269,8 @@ pub struct StateOpts {
     pub clone: bool,
     /// independence product depth after clone (0 = off)
     pub clone_product: u8,
+    /// run the read-only battery once more with the cache's memory mprotect'ed
+    pub trap: bool,
 }
 
 /// Key ids used for lookups: the universe plus one id that is never stored.
@@ -439,6 +441,20 @@ pub fn check_state(
     }
     for rv in take_reg_violations() {
         viol.push(v(p(6) | p(7), "C06/C07.registry", rv));
+    }
+
+    if opts.trap && !cfg!(miri) {
+        st.rule("C19.write-trap");
+        match trap_battery(ctx, cfg, hist, st) {
+            Ok(None) => {}
+            Ok(Some(why)) => viol.push(v(p(19), "C19.write-trap", why)),
+            Err(m) => return StateOut { viol, machinery: Some(m) },
+        }
+        // restore the registry of the main execution of this state check
+        reg_reset();
+        drop(ex.cache.take());
+        ex = rebuild(u, cfg, hist);
+        let _ = take_reg_violations();
     }
 
     // ------------------------------------------------------------------
@@ -715,4 +731,142 @@ fn hash_bound(h0: &[u32; NCB], h1: &[u32; NCB], bound: u32, what: &str, viol: &m
     if hashes > bound {
         viol.push(v(p(20), "C20.hashes", format!("{what} computed {hashes} key hashes, bound {bound}")));
     }
+}
+
+
+/// Names of the operations of the write-trap battery, by tag.
+fn tag_name(tag: usize, ids: &[u32]) -> String {
+    const FIXED: [&str; 12] = [
+        "?",
+        "peek_lru()",
+        "peek_mru()",
+        "len/is_empty/current_size/max_size/capacity/hasher",
+        "iter() forward",
+        "iter().rev()",
+        "iter() alternating next/next_back",
+        "keys() forward and backward",
+        "values() forward and backward",
+        "Debug formatting",
+        "clone() (and dropping the clone)",
+        "iter() created and dropped",
+    ];
+    if tag < 100 {
+        return FIXED.get(tag).copied().unwrap_or("?").to_string();
+    }
+    let t = tag - 100;
+    let id = ids.get(t / 6).copied().unwrap_or(0);
+    let what = ["peek(&K", "peek(&Q", "peek_entry(&K", "peek_entry(&Q", "contains(&K", "contains(&Q"][t % 6];
+    format!("{what} k{id})")
+}
+
+/// Rebuilds the state with everything the cache owns inside this thread's
+/// arena, makes the arena read-only and runs every shared-reference
+/// operation. Ok(Some(description)) if one of them wrote to the cache.
+pub fn trap_battery(ctx: &Ctx, cfg: &Config, hist: &[Op], st: &mut Stats) -> Result<Option<String>, String> {
+    use crate::trap;
+    let u = ctx.u;
+    if !trap::arena_init() {
+        st.class("trap:no-arena");
+        return Ok(None);
+    }
+    reg_reset();
+    reset_counts();
+    set_fuel(None);
+    trap::arena_on_fresh();
+    let mut ex = rebuild(u, cfg, hist);
+    let boxed: Box<Cache> = Box::new(ex.cache.take().unwrap());
+    trap::arena_off();
+    st.executions += 1;
+    let c: &Cache = &boxed;
+    let d = c.verif_dump();
+    if !trap::arena_contains(d.self_addr) || !trap::arena_contains(d.seal) || (d.alloc_size != 0 && !trap::arena_contains(d.alloc_addr)) {
+        // arena exhausted (very large state): nothing to watch
+        st.class("trap:outside-arena");
+        drop(boxed);
+        return Ok(None);
+    }
+    let obs = observe(c, d.items + 1);
+    let ids = probe_ids(ctx, &obs);
+    // probes are created before protecting (their creation touches only the registry)
+    trap::protect([(d.self_addr, d.self_size), (d.seal, d.stride), (d.alloc_addr, d.alloc_size)]);
+    for (i, id) in ids.iter().enumerate() {
+        let probe = TKey::new(*id, u.key_heap(*id));
+        let q = QKey(KeyId(*id));
+        trap::set_tag(100 + 6 * i);
+        let _ = c.peek(&probe).map(|x| x.serial);
+        trap::set_tag(100 + 6 * i + 1);
+        let _ = c.peek(&q).map(|x| x.serial);
+        trap::set_tag(100 + 6 * i + 2);
+        let _ = c.peek_entry(&probe).map(|x| x.0.serial);
+        trap::set_tag(100 + 6 * i + 3);
+        let _ = c.peek_entry(&q).map(|x| x.0.serial);
+        trap::set_tag(100 + 6 * i + 4);
+        let _ = c.contains(&probe);
+        trap::set_tag(100 + 6 * i + 5);
+        let _ = c.contains(&q);
+        std::mem::forget(probe); // dropping would only touch the registry; keep the window minimal
+    }
+    trap::set_tag(1);
+    let _ = c.peek_lru().map(|x| x.0.serial);
+    trap::set_tag(2);
+    let _ = c.peek_mru().map(|x| x.0.serial);
+    trap::set_tag(3);
+    let _ = (c.len(), c.is_empty(), c.current_size(), c.max_size(), c.capacity(), c.hasher().kind);
+    let n = d.items;
+    trap::set_tag(4);
+    let _ = c.iter().take(n + 2).count();
+    trap::set_tag(5);
+    let _ = c.iter().rev().take(n + 2).count();
+    trap::set_tag(6);
+    {
+        let mut it = c.iter();
+        let mut k = 0;
+        loop {
+            let x = if k % 2 == 0 { it.next() } else { it.next_back() };
+            k += 1;
+            if x.is_none() || k > n + 3 {
+                break;
+            }
+        }
+    }
+    trap::set_tag(7);
+    let _ = c.keys().take(n + 2).count();
+    let _ = c.keys().rev().take(n + 2).count();
+    trap::set_tag(8);
+    let _ = c.values().take(n + 2).count();
+    let _ = c.values().rev().take(n + 2).count();
+    trap::set_tag(9);
+    let _ = format!("{:?}", c);
+    trap::set_tag(10);
+    {
+        let c2 = c.clone();
+        drop(c2);
+    }
+    trap::set_tag(11);
+    drop(c.iter());
+    let rep = trap::unprotect();
+    st.class("trap:battery");
+    let out = if rep.cache_writes > 0 {
+        let region = if rep.first_addr >= d.self_addr && rep.first_addr < d.self_addr + d.self_size {
+            format!("the LruCache struct (offset {})", rep.first_addr - d.self_addr)
+        } else if rep.first_addr >= d.seal && rep.first_addr < d.seal + d.stride {
+            format!("the seal (offset {})", rep.first_addr - d.seal)
+        } else {
+            format!("the table allocation (offset {})", rep.first_addr - d.alloc_addr)
+        };
+        Some(format!(
+            "{} through &LruCache wrote to {} while the cache's memory was write-protected ({} faulting write(s) in total)",
+            tag_name(rep.first_tag, &ids),
+            region,
+            rep.cache_writes
+        ))
+    } else {
+        None
+    };
+    if rep.other_writes > 0 {
+        st.class("trap:harness-write-in-arena");
+    }
+    ex.release();
+    let _ = catch_unwind(AssertUnwindSafe(|| drop(boxed)));
+    Ok(out)
 }
